@@ -57,11 +57,20 @@ type SimCase struct {
 	// launch configuration, or two alternating names; Memcpy lines in between) and loaded through
 	// benchmark.BenchmarkBuilder / tracereader instead of being injected with SetKernel
 	ViaFiles bool `json:"via_files,omitempty"`
+	// FileStyle (via_files): 0 LF everywhere; 1 kernelslist.g with CRLF; 2 CRLF in the list and in the kernel files;
+	// 3 blank lines between the list entries and no newline at the end of the list
+	FileStyle int `json:"file_style,omitempty"`
+	// NameLen > 0 (via_files): kernel names padded to this many bytes; InstAddrs > 0: the first instruction of every
+	// warp is an uncompressed access with this many addresses (a line of about 19*InstAddrs bytes)
+	NameLen   int `json:"name_len,omitempty"`
+	InstAddrs int `json:"inst_addrs,omitempty"`
 	// observations
 	Kids       [][]int     `json:"kids,omitempty"`
 	Events     []int       `json:"events,omitempty"` // 0 = next cycle, 2u+1 = tick of component u, 2u+2 = tick of the connection below u
 	Obs        []uint64    `json:"obs,omitempty"`
 	Final      []NodeState `json:"final,omitempty"`
+	KernelsRun int         `json:"kernels_run"` // DriverToDeviceMsg delivered to a GPU
+	BlocksRun  int         `json:"blocks_run"`  // DeviceToSMMsg delivered to an SM
 	Unfinished int64       `json:"unfinished"`
 	Timeout    bool        `json:"timeout"`
 	Crash      string      `json:"crash,omitempty"`
@@ -184,6 +193,14 @@ func buildWorld(c *SimCase) (*world, *runner.Runner) {
 			sn.kids = append(sn.kids, add(n))
 		}
 	}
+	for _, n := range w.nodes {
+		switch n.kind {
+		case 1:
+			n.up.AcceptHook(&recvCounter{&c.KernelsRun})
+		case 2:
+			n.up.AcceptHook(&recvCounter{&c.BlocksRun})
+		}
+	}
 	for i, n := range w.nodes {
 		w.byPtr[reflect.ValueOf(n.obj).Pointer()] = i
 		w.byTC[n.tc] = i
@@ -200,6 +217,15 @@ func buildWorld(c *SimCase) (*world, *runner.Runner) {
 	}
 	r.AddBenchmark(bm)
 	return w, r
+}
+
+// recvCounter counts the messages delivered to a port.
+type recvCounter struct{ n *int }
+
+func (h *recvCounter) Func(ctx sim.HookCtx) {
+	if ctx.Pos == sim.HookPosPortMsgRecvd {
+		*h.n++
+	}
 }
 
 func benchmarkInjected(c *SimCase) *benchmark.Benchmark {
@@ -236,10 +262,22 @@ func benchmarkFromFiles(c *SimCase) *benchmark.Benchmark {
 		panic(err)
 	}
 	defer os.RemoveAll(dir)
-	var list strings.Builder
-	list.WriteString("MemcpyHtoD,0x00007fb0fc400000,200000\n")
+	eolList, eolFile, sep := "\n", "\n", ""
+	switch c.FileStyle {
+	case 1:
+		eolList = "\r\n"
+	case 2:
+		eolList, eolFile = "\r\n", "\r\n"
+	case 3:
+		sep = "\n"
+	}
+	entries := []string{"MemcpyHtoD,0x00007fb0fc400000,200000"}
 	for i, k := range c.Kernels {
-		tk := trKernel{Header: trHeader{Name: []string{"_Z6KernelP4NodePiPbS2_S2_i", "_Z7Kernel2PbS_S_S_i"}[i%2], KernelID: int64(i + 1),
+		name := []string{"_Z6KernelP4NodePiPbS2_S2_i", "_Z7Kernel2PbS_S_S_i"}[i%2]
+		if c.NameLen > len(name) {
+			name += strings.Repeat("x", c.NameLen-len(name))
+		}
+		tk := trKernel{Header: trHeader{Name: name, KernelID: int64(i + 1),
 			Grid: [3]int64{int64(len(c.Kernels[0])) + 1, 1, 1}, Block: [3]int64{64, 1, 1}, Nregs: 16, BinVer: 80,
 			ShBase: 0x7fb139000000, LocalBase: 0x7fb137000000, Nvbit: "1.7", Tracer: "5"}}
 		for j, b := range k {
@@ -252,6 +290,13 @@ func benchmarkFromFiles(c *SimCase) *benchmark.Benchmark {
 						in = trInst{PC: uint64(16 * x), Mask: 0xffffffff, Dests: []int64{4}, Op: "LDG.E", Srcs: []int64{4},
 							Mem: &trMem{Width: 4, Mode: 1, Base: 0x7fb0fc430e00 + uint64(128*(i+j+l)), Stride: 4}}
 					}
+					if x == 0 && c.InstAddrs > 0 {
+						m := &trMem{Width: 4, Mode: 0}
+						for a := 0; a < c.InstAddrs; a++ {
+							m.Addrs = append(m.Addrs, 0x7fb0fc430e00+uint64(4*a))
+						}
+						in = trInst{PC: 0, Mask: 0xffffffff, Dests: []int64{4}, Op: "LDG.E", Srcs: []int64{4}, Mem: m}
+					}
 					wp.Insts = append(wp.Insts, in)
 				}
 				blk.Warps = append(blk.Warps, wp)
@@ -262,19 +307,23 @@ func benchmarkFromFiles(c *SimCase) *benchmark.Benchmark {
 		var sb strings.Builder
 		for x := range lines {
 			sb.WriteString(trLineText(&lines[x]))
-			sb.WriteString("\n")
+			sb.WriteString(eolFile)
 		}
-		name := fmt.Sprintf("kernel-%d.traceg", i+1)
-		if err := os.WriteFile(filepath.Join(dir, name), []byte(sb.String()), 0o644); err != nil {
+		fname := fmt.Sprintf("kernel-%d.traceg", i+1)
+		if err := os.WriteFile(filepath.Join(dir, fname), []byte(sb.String()), 0o644); err != nil {
 			panic(err)
 		}
-		list.WriteString(name + "\n")
+		entries = append(entries, fname)
 		if i%2 == 1 {
-			list.WriteString("MemcpyDtoH,0x00007fb0fc430e00,4\nMemcpyHtoD,0x00007fb0fc430e00,4\n")
+			entries = append(entries, "MemcpyDtoH,0x00007fb0fc430e00,4", "MemcpyHtoD,0x00007fb0fc430e00,4")
 		}
 	}
-	list.WriteString("MemcpyDtoH,0x00007fb0fc400000,200000\n")
-	if err := os.WriteFile(filepath.Join(dir, "kernelslist.g"), []byte(list.String()), 0o644); err != nil {
+	entries = append(entries, "MemcpyDtoH,0x00007fb0fc400000,200000")
+	text := strings.Join(entries, eolList+sep)
+	if c.FileStyle != 3 {
+		text += eolList
+	}
+	if err := os.WriteFile(filepath.Join(dir, "kernelslist.g"), []byte(text), 0o644); err != nil {
 		panic(err)
 	}
 	return new(benchmark.BenchmarkBuilder).WithTraceDirectory(dir).Build()
@@ -391,6 +440,7 @@ func (r *recorder) Func(ctx sim.HookCtx) {
 func runSim(c *SimCase) {
 	c.Events, c.Obs, c.Final, c.Kids = []int{}, []uint64{}, nil, nil
 	c.Timeout, c.Crash = false, ""
+	c.KernelsRun, c.BlocksRun = 0, 0
 	w, r := buildWorld(c)
 	for _, n := range w.nodes {
 		k := n.kids
@@ -559,10 +609,34 @@ func genCase(rng *vh.Rng, i int) *SimCase {
 	if rng.Bool() {
 		c.Freq = "ghz"
 	}
+	if i%8 == 6 { // as many kernels as devices, finishing in the same cycle: the driver's queue is empty when the reports arrive
+		ng := 2 + rng.Intn(3)
+		c.GPUs = nil
+		for g := 0; g < ng; g++ {
+			c.GPUs = append(c.GPUs, GPUShape{SMs: 1 + rng.Intn(2), Subs: 1 + rng.Intn(2)})
+		}
+		base := int64(3 + rng.Intn(4))
+		c.Kernels = nil
+		for j := 0; j < ng+rng.Intn(2); j++ {
+			n := base + int64(ng-1-j%ng)
+			if rng.Intn(5) == 0 {
+				n += int64(rng.Intn(3)) - 1
+			}
+			c.Kernels = append(c.Kernels, [][]int64{{n}})
+		}
+		c.Tag = "stagger"
+	}
 	if i%5 == 4 { // the kernel list of an iterative application, loaded from trace files
 		c.ViaFiles = true
 		for len(c.Kernels) < 4 {
 			c.Kernels = append(c.Kernels, genKernels(rng, degenerate, 1, 1, 3, 1, 4)...)
+		}
+		c.FileStyle = rng.Intn(4)
+		switch rng.Intn(4) {
+		case 0: // lines between 1000 bytes and just below bufio.Scanner's 64 KiB limit
+			c.NameLen = []int{1000, 1024, 1100, 4096, 20000, 60000}[rng.Intn(6)]
+		case 1:
+			c.InstAddrs = []int{60, 64, 200, 1000, 3000}[rng.Intn(5)]
 		}
 	}
 	if i%11 == 5 { // many sub-cores reporting at once: fills the SM's 4-deep buffer
